@@ -149,11 +149,16 @@ class UniformQuantParams:
     else:
       raise ValueError(f'Unsupported data type: {data_type}')
     symmetric = sum(abs(quant_params['zero_points'])) == 0
+    zero_points = quant_params['zero_points']
+    if len(zero_points) == 1 and len(quant_params['scales']) > 1:
+      # Some kernels (e.g. hybrid transpose conv) expand a per-tensor scale to
+      # per-channel scales at prepare time but keep the single zero point.
+      zero_points = np.repeat(zero_points, len(quant_params['scales']))
     return cls(
         quantized_dimension=quant_params['quantized_dimension'],
         num_bits=num_bits,
         scale=quant_params['scales'],
-        zero_point=quant_params['zero_points'],
+        zero_point=zero_points,
         symmetric=symmetric,
     )
 
